@@ -22,7 +22,7 @@ from __future__ import annotations
 import ast
 
 from sa.pyfacts import call_name, get_kw, norm
-from sa.q import Fn, inside, natom
+from sa.q import Fn, flatten_cond, inside, natom
 from sa.report import AnalysisError
 
 LEVEL = "other"
@@ -103,6 +103,17 @@ def r1(repo, chk):
         k, v = (norm(e) for e in l.target.elts) if isinstance(l.target, ast.Tuple) else ("", "")
         dels = [st for st in ct.stmts(lambda s: isinstance(s, ast.Delete)) if norm(st) == f"del self._protocols[{k}]"]
         ok = len(dels) == 1 and [a for a in ct.lexical_guards(dels[0], expand=False)] in ([natom(f"{v} == protocol")], [natom(f"{v} is protocol")]) and not [s for s in ast.walk(l) if isinstance(s, (ast.Break, ast.Return))]
+    if not ok and len(loops) == 1 and isinstance(loops[0].iter, ast.Name) and isinstance(loops[0].target, ast.Name):
+        # collect-then-delete: keys = [k for k, v in self._protocols.items() if v == protocol]; for k in keys: del ...
+        l = loops[0]
+        defs = [v for st, t, v in ct.assigns(chain=l.iter.id)]
+        if len(defs) == 1 and isinstance(defs[0], (ast.ListComp, ast.SetComp)) and len(defs[0].generators) == 1:
+            g = defs[0].generators[0]
+            if norm(g.iter) == "self._protocols.items()" and isinstance(g.target, ast.Tuple) and len(g.target.elts) == 2:
+                k, v = (norm(e) for e in g.target.elts)
+                sel = norm(defs[0].elt) == k and [natom(norm(i)) for i in g.ifs] in ([natom(f"{v} == protocol")], [natom(f"{v} is protocol")])
+                dels = [st for st in ct.stmts(lambda s: isinstance(s, ast.Delete)) if norm(st) == f"del self._protocols[{l.target.id}]"]
+                ok = sel and len(dels) == 1 and inside(dels[0], l) and not ct.lexical_guards(dels[0], expand=False) and not [s for s in ast.walk(l) if isinstance(s, (ast.Break, ast.Return, ast.Continue))]
     chk.ob("R1", "_connection_terminated removes every routing entry that points to the terminated protocol", ok, "entries registered under keys the connection does not know about (the client's first destination ID, the Retry source ID) stay behind and route to a dead connection", ct.loc(ct.node))
     ci = Fn(repo, S + "_connection_id_issued")
     chk.ob("R1", "_connection_id_issued routes the new ID to its protocol", [norm(n) for k, n in _writes(ci, "self._protocols")] == ["self._protocols[cid] = protocol"], "", ci.loc(ci.node))
@@ -112,7 +123,23 @@ def r1(repo, chk):
         ok = len(cs) == 1 and natom(f"isinstance(event, events.{ev})") in pe.guard_atoms(cs[0]) + pe.lexical_guards(cs[0], expand=False) and ([norm(a) for a in cs[0].args] == ([arg] if arg else []))
         chk.ob("R1", f"_process_events reports {ev} to the server's handler", ok, "", pe.loc(pe.node))
     loops = [l for l in pe.stmts(lambda s: isinstance(s, ast.While))]
-    ok = len(loops) == 1 and norm(loops[0].test) == "event is not None" and any(norm(s) == "event = self._quic.next_event()" for s in loops[0].body) and not [s for s in ast.walk(loops[0]) if isinstance(s, (ast.Break, ast.Return))]
+    ok = len(loops) == 1
+    if ok:
+        # the loop is left only with `event is None`, and every trip round it fetches the next event (pre-test loop with
+        # the fetch at the end of the body, or `while True` with fetch + `if event is None: break` at the top)
+        L = loops[0]
+        cfg = pe.cfg
+        fetches = [st for st, t, v in pe.assigns(chain="event") if norm(v) == "self._quic.next_event()"]
+        others = [st for st, t, v in pe.assigns(chain="event") if st not in fetches]
+        none = natom("event is None")
+        forever = isinstance(L.test, ast.Constant) and bool(L.test.value)
+        exits_ok = (forever or flatten_cond(L.test, False) == [none]) and all(none in pe.guard_atoms(b) for b in ast.walk(L) if isinstance(b, ast.Break)) and not [s for s in ast.walk(L) if isinstance(s, ast.Return)]
+        if forever and not [b for b in ast.walk(L) if isinstance(b, ast.Break)]:
+            exits_ok = False
+        inner = {cfg.done[st] for st in fetches if inside(st, L) and st in cfg.done}
+        cycle_ok = bool(inner) and not cfg.reaches(cfg.tedge[L], cfg.begin[L], avoid=inner)
+        first_ok = any(not inside(st, L) and pe.before(st, L) for st in fetches) or all(cfg.dominates(d, cfg.begin[b]) for b in ast.walk(L) if isinstance(b, ast.Break) for d in list(inner)[:1])
+        ok = exits_ok and cycle_ok and first_ok and not others
     chk.ob("R1", "_process_events drains the event queue completely", ok, "", pe.loc(pe.node))
 
 
